@@ -159,9 +159,16 @@ Crash == /\ pc \notin {"closed", "done"}
          /\ pc' = "closed"
          /\ UNCHANGED <<P, F, volA, volB, ckA, ckB, aExists, win, stuck>>
 
+\* ... and when a window has been computed and is about to be written (the write polls the stop flag before every block;
+\* a window of a small table is one block): nothing of the window reaches the file, no checkpoint is recorded
+StopInWrite == pc \in {"Awritten", "Bwritten"} /\ pc' = "closed"
+               /\ volA' = (IF pc = "Awritten" THEN [i \in X |-> IF win[1] <= i /\ i < win[2] THEN durA[i] ELSE volA[i]] ELSE volA)
+               /\ volB' = (IF pc = "Bwritten" THEN [z \in X |-> IF z \in BSlots(win[1], win[2]) THEN durB[z] ELSE volB[z]] ELSE volB)
+               /\ UNCHANGED <<P, F, durA, durB, ckA, dckA, ckB, dckB, aExists, win, stuck>>
+
 Next == Open \/ AStart \/ ASync1 \/ ACkpt \/ ASync2 \/ ALoop \/ AFinal
         \/ BStart("B") \/ BStart("Bloop") \/ BSync1 \/ BCkpt \/ BSync2 \/ BFinal \/ RemoveA
-        \/ Stop \/ Crash
+        \/ Stop \/ StopInWrite \/ Crash
 Spec == Init /\ [][Next]_vars
 
 (* ------------------------------ properties ------------------------------ *)
